@@ -1037,7 +1037,8 @@ def exec_op(sim, cl, i, traced):
         cl.vals[i] = res
         if kind == "again":
             first = cl.recs[bi]
-            if first["st"] == "ok" and first.get("key") == key and first.get("dg") != rec["dg"]:
+            racy_rng = bkind == "permute" and len(spec["threads"]) > 1  # global RNG shared with other clients
+            if first["st"] == "ok" and first.get("key") == key and first.get("dg") != rec["dg"] and not racy_rng:
                 prop = "C16" if bkind == "permute" else ("C12" if bkind in ("canon", "serialize") else "C14")
                 sim.violation(prop, "repeat_differs", cl, i, bkind, key, f"first {first.get('dg')} now {rec['dg']}")
     elif rec["st"] == "exc" and kind == "again":
